@@ -318,7 +318,7 @@ def worker(case: Dict[str, Any]) -> CaseResult:
                         else:
                             out: List[Tuple[str, str]] = []
                             wstats: Dict[str, int] = {}
-                            oracles.walk(value, data, (), world.types, out, wstats, schema_ref)
+                            oracles.walk(value, data, (), world.types, out, wstats, schema_ref, pyname=python_name_fn(cfg))
                             for k, n in wstats.items():
                                 count("c01." + k, n)
                             try:
@@ -343,6 +343,21 @@ def worker(case: Dict[str, Any]) -> CaseResult:
         sample = {"schema_sdl_head": sdl[:600], "operations": [o[:400] for o in ops], "config": case["cfg"]}
     sets["features"] = feats
     return CaseResult(status, [v.to_json() for v in violations if v.prop in props], stats, sets, sample=sample)
+
+
+def python_name_fn(cfg):
+    """The Python name of a response key under this configuration, by the repository's own name mapping (whose laws C18 checks separately)."""
+    from ariadne_codegen.utils import process_name
+
+    snake = cfg.get("convert_to_snake_case", True)
+
+    def f(key: str):
+        if key == "__typename":
+            return "typename__"
+        name = process_name(key, convert_to_snake_case=snake, trim_leading_underscore=True, handle_pydantic_resrved_field_names=True)
+        return name if name.isidentifier() else None
+
+    return f
 
 
 def obj_at(value, path):
